@@ -48,6 +48,18 @@ func VerifSplit(fset *token.FileSet, name string, src []byte) (any, error) {
 	return section.Split(fset, name, src)
 }
 
+// VerifSplitPatch splits a patch file into changes and the body of every
+// change into its '-' and '+' versions (parse.VerifVersion).
+func VerifSplitPatch(fset *token.FileSet, name string, src []byte) (minus, plus []parse.VerifVersion, err error) {
+	prog, err := section.Split(fset, name, src)
+	for _, c := range prog {
+		m, p := parse.VerifSplitPatch(c.Patch)
+		minus = append(minus, m)
+		plus = append(plus, p)
+	}
+	return minus, plus, err
+}
+
 // VerifAugment exposes augment.Augment.
 func VerifAugment(src []byte) (out []byte, augs any, adjs any, err error) {
 	return augment.Augment(src)
